@@ -12,6 +12,16 @@
 #ifndef PAYLOAD
 #define PAYLOAD 0
 #endif
+// USE_*: the program itself uses that feature (then BOTH sides are built with it and differ in OTHER, unused switches)
+#ifndef USE_SERIAL
+#define USE_SERIAL 0
+#endif
+#ifndef USE_HISTORY
+#define USE_HISTORY 0
+#endif
+#ifndef USE_PLANS
+#define USE_PLANS 0
+#endif
 #define NST 3
 #define VCAT2(a, b) a##b
 #define VCAT(a, b) VCAT2(a, b)
@@ -57,19 +67,35 @@ template <int I> struct St : FSM::State {
   void update(FullControl& c) { pr_rec(0x50 + I); act(c); }
   void react(const int& e, FullControl& c) { pr_rec(0x70 + I + 4 * (e & 1)); act(c); }
 };
-struct Rt : FSM::State { void enter(PlanControl&) { pr_rec(0xE2); } void update(FullControl& c) { pr_rec(0xE3); act(c); } void exit(PlanControl&) { pr_rec(0xE4); } };
+struct Rt : FSM::State { void enter(PlanControl&) { pr_rec(0xE2); } void update(FullControl& c) { pr_rec(0xE3); act(c); } void exit(PlanControl&) { pr_rec(0xE4); }
+#if USE_PLANS
+  void planSucceeded(FullControl&) { pr_rec(0xE5); } void planFailed(FullControl&) { pr_rec(0xE6); }
+#endif
+};
 static void observe(const Inst& m) {
 #if MANUAL
   pr_rec(0x80 + (m.isActive() ? 1 : 0));
 #endif
   pr_rec(0x90 + (m.activeStateId() & 15)); pr_rec(m.isActive(1) ? 0xB1 : 0xB0);
+#if USE_HISTORY
+  pr_rec(m.previousTransition().destination); pr_rec(m.previousTransition().origin);
+#endif
+#if USE_PLANS
+  { int n = 0; auto pl = m.plan(); for (auto it = pl.begin(); it; ++it) { pr_rec(0xC0 + it->origin * 4 + it->destination); if (++n > 2) break; } }
+#endif
 }
 extern "C" void VCAT(VERIF_PREFIX, scenario)(void) {
   Inst m;
   observe(m);
+#if USE_SERIAL
+  Inst::SerialBuffer saved; bool have = false;
+#if !MANUAL
+  { const Inst& cm = m; cm.save(saved); have = true; }      // a snapshot of the initial state is always at hand
+#endif
+#endif
   for (int s = 0; s < KSTEPS; ++s) {
     pr_step(s + 1);
-    unsigned char op = pr_draw() % 5;
+    unsigned char op = pr_draw() % 8;
 #if MANUAL
     if (!m.isActive()) { m.enter(); observe(m); continue; }
     if (op == 4) { m.exit(); observe(m); continue; }
@@ -80,6 +106,17 @@ extern "C" void VCAT(VERIF_PREFIX, scenario)(void) {
     else if (op == 3) m.immediateChangeTo(pr_below(NST));
 #if PAYLOAD
     else if (op == 4) { Pay p; p.v = pr_draw(); m.immediateChangeWith(pr_below(NST), p); }
+#endif
+#if USE_SERIAL
+    else if (op == 5) { const Inst& cm = m; cm.save(saved); have = true; pr_rec(saved.data()[0]); }
+    else if (op == 6 && have) { m.load(saved); }
+#endif
+#if USE_HISTORY
+    else if (op == 7) { m.replayTransition(pr_below(NST)); }
+#endif
+#if USE_PLANS
+    else if (op == 5 && !USE_SERIAL) { m.plan().change(pr_below(NST), pr_below(NST)); }
+    else if (op == 6 && !USE_SERIAL) { m.succeed(pr_below(NST)); }
 #endif
     observe(m);
   }
